@@ -479,3 +479,15 @@ impl Plugins {
         run_verify_plugin!(qs, results, spn::Spn);
     }
 }
+
+#[cfg(feature = "verif-hooks")]
+impl Plugins {
+    /// verif hook (C20): run only `Base::pre_create_transform`.
+    pub fn verif_base_pre_create_transform(
+        qs: &mut QueryServerWriteTransaction,
+        cand: &mut Vec<Entry<EntryInvalid, EntryNew>>,
+        ce: &CreateEvent,
+    ) -> Result<(), OperationError> {
+        base::Base::pre_create_transform(qs, cand, ce)
+    }
+}
